@@ -116,7 +116,17 @@ def witness_cases():
     fresh = [sc.with_id("e7", A), sc.with_id("e8", R1), sc.with_id("e9", B)]
     shared = {"datasets": ["a", "b"], "ops": [{"op": "batch", "ds": "a", "ents": fresh, "refuse_during": "b"}] + fin_reads(2, ["e7", "e8", "e9"])
               + [{"op": "restart"}, {"op": "batch", "ds": "a", "ents": fresh}] + fin_reads(2, ["e7", "e8", "e9"])}
-    return [race, txnrace, merged, big, nullprop, http, stale, refused, longbatch, tokens, shared,
+    # the listing read through a PROXY dataset whose remote hub is this hub (real loopback HTTP, ProxyDataset.StreamEntities*)
+    proxy = {"datasets": ["a"], "proxies": {"p": "a"}, "ops": [
+        {"op": "mkproxy", "ds": "p", "id": "a"}, {"op": "hbatch", "ds": "a", "ents": many},
+        {"op": "hentities", "ds": "p", "limits": [4], "ld": True}, {"op": "hentities", "ds": "p", "limits": [0]},
+        {"op": "hbatch", "ds": "a", "ents": [sc.with_id("e7", {"deleted": True, "props": {"p1": 1}, "refs": {}})] + many[10:21]},
+        {"op": "hentities", "ds": "p", "limits": [10]}, {"op": "hentities", "ds": "p", "limits": [3], "ld": True}]}
+    # a POST whose last entity has no id: the batches of 10 before it are stored, the partial last batch is refused as a whole
+    # and the request does not answer 200; then the valid part is posted again
+    hrefused = {"datasets": ["a"], "ops": [{"op": "hbatch", "ds": "a", "ents": many[:14], "reject": True}] + fin_reads(1, ["e1", "e5", "e12"])
+                + [{"op": "hbatch", "ds": "a", "ents": many[10:14]}] + fin_reads(1, ["e1", "e5", "e12"])}
+    return [hrefused, race, txnrace, merged, big, nullprop, http, proxy, stale, refused, longbatch, tokens, shared,
         # two tombstones differing in one reference target only: two versions
         {"datasets": ["a"], "ops": [{"op": "batch", "ds": "a", "ents": [sc.with_id("e1", sc.TOMBPAIR[0])]},
                                     {"op": "batch", "ds": "a", "ents": [sc.with_id("e1", sc.TOMBPAIR[1])]}] + fin_reads(1, ["e1"])},
